@@ -7,6 +7,7 @@ mod lexrun;
 mod literal;
 mod purity;
 mod sqlast;
+mod sqlshape;
 mod render;
 mod rqjson;
 mod run;
@@ -36,6 +37,7 @@ fn main() {
         "purity" => purity::main(&args[1..]),
         "sched" => purity::main_sched(&args[1..]),
         "sqlast" => sqlast::main(&args[1..]),
+        "sqlshape" => sqlshape::main(&args[1..]),
         "sqlparse" => sqlast::main_parse(&args[1..]),
         "number" => literal::main_numbers(&args[1..]),
         "ident" => literal::main_idents(&args[1..]),
